@@ -219,8 +219,9 @@ impl ElementVar {
                     { Ok(*f()?.borrow()) };"""),
                ("R9", r'\|\|\s*Ok\((\w+)\.inner\)', rf'|| -> (q_: Result<EdwardsProjective, SynthesisError>) ensures q_ == {OKP}(\1.inner) {{ Ok(\1.inner) }}'),
                ] + r1.r9_rules() + [
-               ("R20", r'let group_projective_point = f\(\)\?;', r'let group_projective_point = f()?; proof { lemma_nv_honest(repr(group_projective_point.inner)); }'),
-               ("R20", r'(\w+)\.enforce_equal\(&(\w+)\)\?;', r'proof { lemma_nv_eq(repr(group_projective_point.inner), pv(\2), pv(\1)); } \1.enforce_equal(&\2)?;')]
+               # R20: the native element is named where it is produced, whatever the local is called
+               ("R20", r'let (\w+) = f\(\)\?;', r'let \1 = f()?; let ghost gpp_ = \1;'),
+               ("R20", r'(\w+)\.enforce_equal\(&(\w+)\)\?;', r'proof { lemma_nv_eq(repr(gpp_.inner), pv(\2), pv(\1)); } \1.enforce_equal(&\2)?;')]
         items.append(Item(INN, "impl AllocVar<Element, Fq> for ElementVar", [Fn(
             "new_variable", props=(tag,), preamble=bu + " broadcast use repr_range;", subst=nvc,
             requires=NV_REQ("T", "repr(q->Ok_0.borrow_spec().inner)"),
@@ -258,7 +259,6 @@ pub open spec fn nv_rel(mode: AllocationMode, p: P4, v: P4) -> bool {
 """
 
 NV_COMPL_LEMMAS = NV_COMPL_SPECS + r"""
-pub proof fn lemma_nv_honest(p: P4) ensures true { }
 // equality of group elements does not depend on the projective scaling of one side:
 // q == p as group elements (cross-multiplication), pa the affine form of p  ==>  q == pa
 pub proof fn lemma_nv_eq(p: P4, pa: P4, q: P4)
